@@ -62,7 +62,8 @@ Fresh(db, p)    == {x \in db : x.p = p}
 Received(db, Q) == {x \in db : x.p \in Q}
 
 \* ------------------------------------------------------------- the lookup
-Valid(cache, p) == cache[p].ttl > 0
+\* (the cache may be a partial function: no entry = nothing usable)
+Valid(cache, p) == p \in DOMAIN cache /\ cache[p].ttl > 0
 
 \* What is known about prefix p to a check that asks the service about Q:
 \* the fresh answer when p is asked, otherwise the (unexpired) cache entry.
@@ -101,7 +102,7 @@ Outcomes(n, cache, db) ==
 \* every entry equals what a fresh lookup returned when it was fetched.
 \* life = life time of a new entry, in ticks (>= 1).
 Store(cache, Q, rcv, life) ==
-    [p \in DOMAIN cache |->
+    [p \in DOMAIN cache \cup Q |->
         IF \E x \in rcv : x.p = p THEN [ttl |-> life, hs |-> {x \in rcv : x.p = p}]
         ELSE IF p \in Q THEN [ttl |-> life, hs |-> {}]
         ELSE cache[p]]
